@@ -48,7 +48,12 @@ def _is_docroot_join(e, pathvars):
     j = e.args[0]
     if not (isinstance(j, ast.Call) and call_name(j) == 'os.path.join' and j.args and src(j.args[0]) == 'self.docroot'):
         return None
-    rest = [src(a) for a in j.args[1:]]
+    def comp(a):
+        # `path or '.'`: the path variable, or a constant when it is empty
+        if isinstance(a, ast.BoolOp) and isinstance(a.op, ast.Or) and src(a.values[0]) in pathvars and all(isinstance(v, ast.Constant) for v in a.values[1:]):
+            return src(a.values[0])
+        return src(a)
+    rest = [comp(a) for a in j.args[1:]]
     used = [r for r in rest if r in pathvars]
     if used:
         return used[0]
@@ -251,48 +256,88 @@ def rule_c(repo, chk):
     chk.touch(f)
     g = f.cfg()
     clen = f.params[1]
-    apps = [(n, c) for n in g.nodes if n.kind == 'stmt' for r, c in pat.method_calls(n.ast, 'append') if c.args and isinstance(c.args[0], ast.Tuple)
-            and len(c.args[0].elts) == 2]
+    # appended ranges: `result.append((a, b))`, or `span = (a, b)` … `result.append(span)` (then the obligations are stated where the pair is built)
+    apps = []
+    for n in g.nodes:
+        if n.kind != 'stmt':
+            continue
+        for _r, c in pat.method_calls(n.ast, 'append'):
+            if not c.args:
+                continue
+            if isinstance(c.args[0], ast.Tuple) and len(c.args[0].elts) == 2:
+                apps.append((n, c.args[0], c))
+            elif isinstance(c.args[0], ast.Name):
+                for d in Q.reaching_defs(g, n, c.args[0].id):
+                    if d.kind == 'stmt' and isinstance(d.ast, ast.Assign) and isinstance(d.ast.value, ast.Tuple) and len(d.ast.value.elts) == 2:
+                        apps.append((d, d.ast.value, d.ast))
+                    else:
+                        chk.ob('c', f.ref, 'what is appended to the result is a (start, stop) pair built in this function', False, loc(f, c),
+                               detail=f'`{d.text[:60]}`', discr='appended-is-pair')
     need(len(apps) >= 2, 'C16.c: the range parser appends fewer than two kinds of ranges')
-    for n, c in apps:
-        a, b = c.args[0].elts
+
+    def values_at(n, e, depth=0):
+        """The expressions whose value *e* may have at node n (names are followed through their reaching definitions)."""
+        if isinstance(e, ast.Name) and depth < 4:
+            out = []
+            for d in Q.reaching_defs(g, n, e.id):
+                if d.kind == 'stmt' and isinstance(d.ast, ast.Assign) and len(d.ast.targets) == 1 and isinstance(d.ast.targets[0], ast.Name):
+                    out += values_at(d, d.ast.value, depth + 1)
+                else:
+                    out.append(None)
+            return out or [None]
+        return [(n, e)]
+
+    def at_most_last(n, e, depth=0):
+        """e <= clen - 1 at node n: `clen - 1`, min(…) with such an argument, a conditional expression of such values, a name all of whose definitions are such"""
+        if depth > 5 or e is None:
+            return False
+        if isinstance(e, ast.BinOp) and isinstance(e.op, ast.Sub) and src(e.left) == clen and pat.is_const(e.right, 1):
+            return True
+        if isinstance(e, ast.Call) and call_name(e) == 'min' and not e.keywords and len(e.args) >= 2:
+            return any(at_most_last(n, x, depth + 1) for x in e.args)
+        if isinstance(e, ast.IfExp):
+            return at_most_last(n, e.body, depth + 1) and at_most_last(n, e.orelse, depth + 1)
+        if isinstance(e, ast.Name):
+            vals = values_at(n, e)
+            return all(v is not None and not isinstance(v[1], ast.Name) and at_most_last(v[0], v[1], depth + 1) for v in vals)
+        return False
+    for n, pair, c in apps:
+        a, b = pair.elts
         kind = 'suffix' if src(b) == clen else 'explicit'
         # upper bound
         if src(b) == clen:
             ok_b, det_b = True, 'stop is the entity length'
         elif isinstance(b, ast.BinOp) and isinstance(b.op, ast.Add) and pat.is_const(b.right, 1) and isinstance(b.left, ast.Name):
-            sv = b.left.id
-            defs = Q.reaching_defs(g, n, sv)
-            ok_b = bool(defs) and all(d.kind == 'stmt' and isinstance(d.ast, ast.Assign) and _is_min_clamp(d.ast.value, sv, clen) for d in defs)
-            det_b = '; '.join(d.text[:50] for d in defs)
+            ok_b = at_most_last(n, b.left)
+            det_b = '; '.join(d.text[:50] for d in Q.reaching_defs(g, n, b.left.id))
         else:
             ok_b, det_b = False, f'stop expression `{src(b)}`'
         chk.ob('c', f.ref, f'{kind} range: the stop index cannot exceed the entity length', ok_b, loc(f, c), detail=det_b, discr=f'stop-clamped:{kind}')
         # lower bound
-        if isinstance(a, ast.Name):
-            defs = Q.reaching_defs(g, n, a.id)
-            if kind == 'suffix':
-                ok_a = bool(defs) and all(d.kind == 'stmt' and isinstance(d.ast, ast.Assign) and _is_max_zero(d.ast.value) for d in defs)
-                # … and at most the length: the suffix length subtracted is known to be positive
-                for d in defs:
-                    if not ok_a:
-                        break
-                    sub = [x for x in d.ast.value.args if not pat.is_const(x, 0)][0]
-                    sv_ = src(sub.right) if isinstance(sub, ast.BinOp) and isinstance(sub.op, ast.Sub) and src(sub.left) == clen else None
-                    if sv_ is None:
-                        ok_a = False
-                        break
-                    nonneg = pat.guarded_by(g, n, pat.test_edge(lambda tt, pol: pat.fact_matches(pat.compare_fact(tt, pol), sv_, ('>=', '>'), '0') or
+        if kind == 'suffix':
+            vals = values_at(n, a)
+            ok_a = all(v is not None and _is_max_zero(v[1]) for v in vals)
+            det_a = '; '.join(src(v[1])[:50] for v in vals if v is not None)
+            # … and at most the length: the suffix length subtracted is known to be positive
+            for v in vals:
+                if not ok_a:
+                    break
+                sub = [x for x in v[1].args if not pat.is_const(x, 0)][0]
+                sv_ = src(sub.right) if isinstance(sub, ast.BinOp) and isinstance(sub.op, ast.Sub) and src(sub.left) == clen else None
+                if sv_ is None:
+                    ok_a = False
+                    break
+                nonneg = pat.guarded_by(g, v[0], pat.test_edge(lambda tt, pol: pat.fact_matches(pat.compare_fact(tt, pol), sv_, ('>=', '>'), '0') or
+                                                               pat.fact_matches(pat.compare_fact(tt, pol), sv_, ('>=',), '1')))
+                nonzero = pat.guarded_by(g, v[0], pat.test_edge(lambda tt, pol: pat.fact_matches(pat.compare_fact(tt, pol), sv_, ('!=', '>'), '0') or
                                                                 pat.fact_matches(pat.compare_fact(tt, pol), sv_, ('>=',), '1')))
-                    nonzero = pat.guarded_by(g, n, pat.test_edge(lambda tt, pol: pat.fact_matches(pat.compare_fact(tt, pol), sv_, ('!=', '>'), '0') or
-                                                                 pat.fact_matches(pat.compare_fact(tt, pol), sv_, ('>=',), '1')))
-                    chk.ob('c', f.ref, 'suffix range: the suffix length is known to be positive (a signed or zero suffix is not served)', nonneg is None and nonzero is None,
-                           loc(f, c), path=pat.path_lines(nonneg or nonzero) if (nonneg or nonzero) else None, discr='suffix-positive')
-            else:
-                # explicit first-byte-pos: parsed by int() from a non-empty token; satisfiable ranges only (start < length checked)
-                q = pat.guarded_by(g, n, pat.test_edge(lambda tt, pol: pat.fact_matches(pat.compare_fact(tt, pol), a.id, ('<',), clen)))
-                ok_a = q is None
-            det_a = '; '.join(d.text[:50] for d in defs)
+                chk.ob('c', f.ref, 'suffix range: the suffix length is known to be positive (a signed or zero suffix is not served)', nonneg is None and nonzero is None,
+                       loc(f, c), path=pat.path_lines(nonneg or nonzero) if (nonneg or nonzero) else None, discr='suffix-positive')
+        elif isinstance(a, ast.Name):
+            # explicit first-byte-pos: parsed by int() from a non-empty token; satisfiable ranges only (start < length checked)
+            q = pat.guarded_by(g, n, pat.test_edge(lambda tt, pol: pat.fact_matches(pat.compare_fact(tt, pol), a.id, ('<',), clen)))
+            ok_a = q is None
+            det_a = '; '.join(d.text[:50] for d in Q.reaching_defs(g, n, a.id))
         else:
             ok_a, det_a = False, f'start expression `{src(a)}`'
         chk.ob('c', f.ref, f'{kind} range: the start index is inside the entity', ok_a, loc(f, c), detail=det_a, discr=f'start-bounded:{kind}')
@@ -367,6 +412,8 @@ def rule_d(repo, chk):
         for label, pred in want.items():
             grp = [n for n in g.nodes if n.kind == 'stmt' and pred(n)]
             p = Q.escapes(g, [u], lambda n: n in grp, exc=())
+            if p is not None and label == 'status-206' and Q.reachable_without(g, u, avoid_node=lambda n: n in grp, exc=()) is None:
+                p = None        # the status is set on every path that leads to the single-range branch (it does not depend on the range)
             chk.ob('d', f.ref, f'single range response: {label}', bool(grp) and p is None, loc(f, u.ast), path=pat.path_lines(p, u) if p else None,
                    discr=f'single:{label}')
         rd = [n for n in g.nodes if n.kind == 'stmt' and want['read-exact'](n)]
@@ -487,7 +534,9 @@ def rule_g(repo, chk):
     f = m.functions.get('_get_ranges') or m.functions.get('get_ranges')
     need(f, 'C16.g: range parser missing')
     g = f.cfg()
-    apps = [(n, c) for n in g.nodes if n.kind == 'stmt' for r, c in pat.method_calls(n.ast, 'append') if c.args and isinstance(c.args[0], ast.Tuple)]
+    apps = [(n, c) for n in g.nodes if n.kind == 'stmt' for r, c in pat.method_calls(n.ast, 'append') if c.args and
+            (isinstance(c.args[0], ast.Tuple) or (isinstance(c.args[0], ast.Name) and any(
+                d.kind == 'stmt' and isinstance(d.ast, ast.Assign) and isinstance(d.ast.value, ast.Tuple) for d in Q.reaching_defs(g, n, c.args[0].id))))]
     need(apps, 'C16.g: the range parser appends nothing')
     rv = src([c for _n, c in apps][0].func.value)
     tuples = {src(c.args[0]).replace(' ', '') for _n, c in apps}
@@ -507,6 +556,9 @@ def rule_g(repo, chk):
             under = [a for a, c in apps if src(c.args[0]).replace(' ', '') == want and any(e.dst is a or Q.reaches(e.dst, a, stop=lambda x: x.kind == 'for') for e in n.succ
                                                                                              if e.kind == ('T' if isinstance(t.ops[0], ast.NotIn) else 'F'))]
             exact = bool(under)
+            if exact and isinstance(t.left, ast.Name):
+                # a pair held in a local: the local is not re-bound between the membership test and the append
+                exact = all(not (Q.reachable_without(g, a, start=n, avoid_node=lambda x: x is not n and t.left.id in Q.node_defs(x)) is None) for a in under)
         chk.ob('g', f.ref, 'the result list is consulted only to skip an exact duplicate of the range about to be appended', exact, loc(f, t),
                detail=src(t)[:100], discr=f'dedupe-exact:{"suffix" if f.params[1] in src(t) else "explicit"}')
     chk.info(f'C16.g: {n_t} tests of the range loop consult the result list')
